@@ -728,28 +728,64 @@ def rule_P6(ctx):
     ctx.ob("P6", df, "the channels of each stream are appended (never prepended/inserted) inside the loop over the streams, i.e. in stream order", ok,
            "" if ok else f"{[(g[1], norm(g[0])[:50]) for g in grows_all]}", inst="append-order")
     pc = ctx.fn(TR, "pad_channels", "P6")
-    from .sem import local_function, canon_expr
-    fns = [pc]
-    for c in own_nodes(pc):
-        if isinstance(c, ast.Call) and isinstance(c.func, ast.Name):
-            h = local_function(ctx, pc._module, c.func.id)
-            if h is not None and h is not pc:
-                fns.append(h)
-    pads = [c for f in fns for c in own_nodes(f) if isinstance(c, ast.Call) and norm(c.func) == "np.pad"]
-    ok = len(pads) == 1
-    det = "np.pad call not found"
-    if ok:
-        f = [f for f in fns if any(n is pads[0] for n in ast.walk(f))][0]
-        width = canon_expr(f, pads[0].args[1]) if len(pads[0].args) > 1 else ""
-        import re as _re
-        ok = bool(_re.match(r"^\(0, (.+) - len\(channel\)\)$", width)) and canon_expr(f, pads[0].args[0]) == "channel"
-        det = "" if ok else f"pad widths `{width}`: frames must only be added after the existing ones"
-    t = " ".join(full(f) for f in fns)
-    ok = ok and ("max(map(len, channels))" in t or "max((len(" in t)
-    ctx.ob("P6", pc, "shorter channels are padded at the END up to the longest; existing frames are kept in place", ok, det, inst="pad")
-    fl = [f for f in own_nodes(pc) if isinstance(f, ast.For) and norm(f.iter) == "channels"]
-    ok = len(fl) == 1 and not any(isinstance(n, ast.Break) for n in ast.walk(fl[0]))
-    ctx.ob("P6", pc, "every channel is kept, in order", ok, "", inst="pad-all")
+    from .streams import _walk as _pw
+    chs = pc.args.args[0].arg
+    elems = []   # (element term, loop variable term) for every way an output element is produced
+    okall, detall = True, ""
+    pcfg = ctx.cfg(pc, "P6")
+    floops = [f for f in own_nodes(pc) if isinstance(f, ast.For) and norm(f.iter) == chs and isinstance(f.target, ast.Name)]
+    rets = [r for r in own_nodes(pc) if isinstance(r, ast.Return) and r.value is not None]
+    comp = None
+    for r in rets:
+        v = r.value
+        if isinstance(v, ast.Call) and isinstance(v.func, ast.Name) and v.func.id == "list" and len(v.args) == 1:
+            v = v.args[0]
+        if isinstance(v, (ast.ListComp, ast.GeneratorExp)) and len(v.generators) == 1 and not v.generators[0].ifs and norm(v.generators[0].iter) == chs \
+                and isinstance(v.generators[0].target, ast.Name):
+            comp = v
+    pre_env = {}
+    for p in run_paths(ctx, pc, rule="P6"):
+        if p.end == "return":
+            pre_env = p.steps[-1].env if p.steps else {}
+    if comp is not None:
+        var = comp.generators[0].target.id
+        env2 = dict(pre_env)
+        env2[var] = A(var + "~")
+        ev_ = evaluator(ctx, pc, env2)
+        alts = [comp.elt.body, comp.elt.orelse] if isinstance(comp.elt, ast.IfExp) else [comp.elt]
+        elems = [(ev_.ev(x).key(), var + "~") for x in alts]
+    elif len(floops) == 1:
+        lp_ = pcfg.loop_of(floops[0])
+        var = floops[0].target.id
+        for kind, path, edge in pcfg.iteration_paths(lp_):
+            if kind == "exit" and len(path) == 1:
+                continue
+            if kind != "back":
+                okall, detall = False, "a channel can end the loop early"
+                continue
+            pr = _pw(ctx, pc, pcfg, path, env0=pre_env)
+            apps = [(c, e) for c, e, st in calls_on(pr) if isinstance(c.func, ast.Attribute) and c.func.attr == "append"]
+            if len(apps) != 1:
+                okall, detall = False, f"{len(apps)} output elements for one channel on a path"
+                continue
+            elems.append((evaluator(ctx, pc, apps[0][1]).ev(apps[0][0].args[0]).key(), var + "~"))
+    else:
+        okall, detall = False, "neither a loop over the channels nor a comprehension over them"
+    T_forms = (f"max(map(len,{chs}))", f"max(comp(len(_c0) for _c0 in {chs}))")
+    n_pad = n_same = 0
+    for k, v in elems:
+        if k == v:
+            n_same += 1
+            continue
+        good = any(k.startswith(f"np.pad({v},tuple(0,{T} + -1*len({v})),") or k.startswith(f"np.pad({v},tuple(0,-1*len({v}) + {T}),") for T in T_forms)
+        if good:
+            n_pad += 1
+        else:
+            okall, detall = False, f"an output element is `{k[:160]}`: frames must only be added after the existing ones, up to the longest channel"
+    ok = okall and n_pad >= 1
+    ctx.ob("P6", pc, "shorter channels are padded at the END up to the longest; existing frames are kept in place", ok, detall, inst="pad")
+    ok = okall and bool(elems)
+    ctx.ob("P6", pc, "every channel is kept, in order", ok, detall, inst="pad-all")
     # dtype table
     dt = ctx.fn("smpl_extract/data_streams.py", "StreamEncoding.dtype", "P6")
     dicts = [d for d in own_nodes(dt) if isinstance(d, ast.Dict)]
